@@ -66,7 +66,10 @@ func main() {
 		fmt.Fprintln(os.Stderr, "usage: h gen <prop> <seed> <tier> | h eval")
 		os.Exit(2)
 	}
-	out := bufio.NewWriterSize(os.Stdout, 1<<20)
+	// the library under test prints diagnostics with fmt.Printf: keep them out of the line protocol
+	realStdout := os.Stdout
+	os.Stdout = os.Stderr
+	out := bufio.NewWriterSize(realStdout, 1<<20)
 	defer out.Flush()
 	switch os.Args[1] {
 	case "gen":
